@@ -106,11 +106,22 @@ class UH(NAHooks):
         self.log = CallLog()
 
     # ---- the uninterpreted ufunc ------------------------------------------
-    def res_dt(self, u, ins, kw):
+    def res_dt(self, u, ins, kw, method='__call__'):
         if kw.get('dtype') is not None:
             return as_dt(kw['dtype'])
         if u.kind == 'bool':
             return DT(bool)
+        if method in ('reduce', 'accumulate', 'reduceat') and \
+                u.name in ('add', 'multiply') and len(ins) == 1 and \
+                isinstance(ins[0], NA):
+            # NumPy: sums and products of integers narrower than the
+            # platform integer (and of booleans) are accumulated in the
+            # platform integer of the same signedness
+            d = ins[0].dt.d
+            if d.kind in 'bi' and d.itemsize < 8:
+                return DT('int64')
+            if d.kind == 'u' and d.itemsize < 8:
+                return DT('uint64')
         return promote(*[i.dt if isinstance(i, NA) else scalar_dt(i)
                          for i in ins])
 
@@ -228,7 +239,7 @@ class UH(NAHooks):
             shp = [1 if i in axes else a.a.shape[i]
                    for i in range(a.a.ndim)]
             res = res.reshape(shp)
-        dt = self.res_dt(u, [a], kw)
+        dt = self.res_dt(u, [a], kw, 'reduce')
         return self._emit(I, [res], out, [dt])
 
     def _accumulate(self, I, u, args, kw, out):
@@ -242,7 +253,8 @@ class UH(NAHooks):
                 j[ax] = k
                 pre.append(to_rat(a.a[tuple(j)]))
             res[idx] = atom(u, 0, 'accumulate', tuple(pre))
-        return self._emit(I, [res], out, [self.res_dt(u, [a], kw)])
+        return self._emit(I, [res], out, [self.res_dt(u, [a], kw,
+                                                      'accumulate')])
 
     def _outer(self, I, u, args, kw, out):
         a, b = na_of(args[0]), na_of(args[1])
